@@ -82,6 +82,20 @@ CHECKS = {
         "z3 is switched off as in the repository's monitor.",
         "TLA+ contract spec + TLC; trace validation of real search/apply pairs at reachable proof states",
         "6/C14"),
+ "C07": ("model_checking",
+        "TLC model-checks spec/C07_Syntax.tla: the printer's bracket rules over the operator table against a recursive-descent model of "
+        "the parser's grammar ladder, both tables generated from syntax/operator.py and the grammar text of syntax/parser.py, on every "
+        "depth-2 nesting of operators/application; invariant RoundTrip on the nestings that have a well-typed instance (computed with the "
+        "real type checker). The real printer and parser are run on one well-typed instance of every typable nesting under four printer "
+        "configurations (ascii/unicode, line widths), seeded further instances and depth-3 nestings, ~60 special forms (binders, "
+        "comprehension, numerals at every numeric type, if, function update, literals, polymorphic constants needing annotations, bound "
+        "names clashing with free names), and a seeded sample of library statements, sequents, constant types and stored proof items; "
+        "TLC judges each round trip by structural equality (spec/C07_SyntaxTrace.tla), and repeated prints along a history must agree.",
+        "Trusted: TLC/SANY, the structural codec, the regular-expression extraction of the grammar ladder. The decisive oracle for the real "
+        "code is the identity itself; the TLA+ model contributes the exhaustive nesting space and the table/grammar consistency check. "
+        "Minimal type annotation and the lexer are bound only by running the round trip.",
+        "TLA+ model of printer table vs grammar ladder (generated from code) + TLC; trace validation of real print/parse round trips",
+        "6/C07"),
 }
 
 NOT_YET = {}
